@@ -287,6 +287,11 @@ def run_server_segmentations(o, ctx, t, r):
         streams.append((mx, hh, body6k[:500], "R200:0:" + hx(body6k[:500]) if len(hh) <= mx else "R431:1:e"))
     streams.append((4096, b"POST /echo HTTP/1.1\r\nTransfer-Encoding: chunked\r\n\r\n", b"5\r\nhello\r\n1;x=y\r\n!\r\n0\r\nT: v\r\n\r\n", "R200:0:" + hx(b"hello!")))
     streams.append((4096, b"GET /\x01 HTTP/1.1\r\n\r\n", b"", "R400:1:e"))
+    # malformed before the first line feed, and nothing follows (the peer waits for the answer): rejected wherever the cuts fall
+    for bad in (b"GET /\x01", b"G\x01T / HTTP/1.1", b"GET /a b", b"GET / HTTP/9", b"GET /ok HTTP/1.1\r\nbad\x01name: v"):
+        # (WHEN a doomed prefix is rejected — at once, or only when its line is complete — is the parser's choice; what must not
+        # happen is that the answer depends on where the stream was cut)
+        streams.append((4096, bad, b"", None))
     streams.append((4096, b"CONNECT example.com:443 HTTP/1.1\r\nHost: example.com\r\n\r\n", b"", "R404:0:e"))
     streams.append((4096, b"GET http://example.com/p/1/2?q=1 HTTP/1.1\r\n\r\n", b"", "R200:0:" + hx(b"1,2")))
     # random well-formed heads: exactly one request and nothing after it (bytes that follow a head in the same segment are not
